@@ -68,6 +68,7 @@ type FuncContract struct {
 	Replay     string
 	Inline     bool
 	Lets       []GhostDecl // let name = expr (evaluated at entry, old state)
+	Unchecked  map[string]string // safety label -> reason: obligation not generated, listed in the evidence
 	Dead       map[string]bool // return#N sites that the contracts make unreachable (their cover must be unsat)
 	Monitor    []*Clause       // type invariants: assumed at entry, re-established at exit, not checked at call sites
 }
@@ -111,7 +112,7 @@ var tagRe = regexp.MustCompile(`^([a-z_]+)(\[[A-Za-z0-9, ]+\])?\s*(.*)$`)
 var keywords = map[string]bool{"pred": true, "axiom": true, "field": true, "rely": true, "func": true, "mode": true,
 	"requires": true, "ensures": true, "panics": true, "modifies": true, "pure": true, "interferes": true, "may_panic": true,
 	"nocheck": true, "safety": true, "ghost": true, "loop": true, "invariant": true, "decreases": true, "at": true,
-	"replay": true, "inline": true, "lockinv": true, "dead": true, "monitor": true, "lemma": true, "let": true, "nopanic": true, "vars": true}
+	"replay": true, "inline": true, "lockinv": true, "dead": true, "monitor": true, "unchecked": true, "lemma": true, "let": true, "nopanic": true, "vars": true}
 
 func parseTags(s string) []string {
 	s = strings.Trim(s, "[]")
@@ -328,6 +329,16 @@ func LoadContractFile(path string, cs *ContractSet) error {
 						cur.Modifies = append(cur.Modifies, p)
 					}
 				}
+			case "unchecked":
+				// unchecked <label>: reason
+				i := strings.Index(rest, ":")
+				if i < 0 {
+					return fmt.Errorf("%s:%d: unchecked needs 'label: reason'", path, l.no)
+				}
+				if cur.Unchecked == nil {
+					cur.Unchecked = map[string]string{}
+				}
+				cur.Unchecked[strings.TrimSpace(rest[:i])] = strings.TrimSpace(rest[i+1:])
 			case "dead":
 				if cur.Dead == nil {
 					cur.Dead = map[string]bool{}
